@@ -15,6 +15,7 @@ import (
 	"net/textproto"
 	"runtime"
 	"sort"
+	"strconv"
 	"strings"
 	"sync"
 	"sync/atomic"
@@ -1217,14 +1218,20 @@ func streamIndex(o opts) {
 	{
 		var racing atomic.Bool
 		var raceKey atomic.Value
-		var arrived atomic.Int32
+		var arrived, lonely atomic.Int32
 		raceKey.Store("")
 		ext := func(key string) string {
 			if racing.Load() && raceKey.Load().(string) == key {
 				n := arrived.Add(1)
 				target := (n + 1) / 2 * 2
-				for t0 := time.Now(); arrived.Load() < target && time.Since(t0) < 200*time.Millisecond; {
-					runtime.Gosched()
+				if lonely.Load() < 20 { // after 20 rendezvous without a partner the probe stops waiting (it only lines calls up)
+					t0 := time.Now()
+					for arrived.Load() < target && time.Since(t0) < 200*time.Millisecond {
+						runtime.Gosched()
+					}
+					if arrived.Load() < target {
+						lonely.Add(1)
+					}
 				}
 			}
 			return httpcache.PathExtractorFromKey(key)
@@ -1264,6 +1271,57 @@ func streamIndex(o opts) {
 		}
 		mw.Close()
 		m.count("late_race_keys")
+	}
+	// (d) a request that re-caches the key while Invalidate is still running: if Invalidate consults the PathExtractor on
+	// its own goroutine (the code as it stands does not: then the request simply follows it), the extractor issues the
+	// request right there. Either way, at quiescence the index must reach exactly what is cached, and a second
+	// Invalidate must remove the re-cached response.
+	for rep := 0; rep < 20; rep++ {
+		var inInv atomic.Bool
+		var invG atomic.Int64
+		var fired atomic.Bool
+		var hnd http.Handler
+		path := fmt.Sprintf("/inv/%d", rep)
+		gid := func() int64 {
+			var b [64]byte
+			f := strings.Fields(string(b[:runtime.Stack(b[:], false)]))
+			id, _ := strconv.ParseInt(f[1], 10, 64)
+			return id
+		}
+		ext := func(key string) string {
+			if inInv.Load() && gid() == invG.Load() && key == "GET:"+path && fired.CompareAndSwap(false, true) {
+				hnd.ServeHTTP(httptest.NewRecorder(), httptest.NewRequest("GET", path, nil))
+			}
+			return httpcache.PathExtractorFromKey(key)
+		}
+		mw := newMW(0, ext)
+		hnd = mw.Wrap(http.HandlerFunc(func(w http.ResponseWriter, rq *http.Request) { w.Write([]byte("ok")) }))
+		get := func() string {
+			rec := httptest.NewRecorder()
+			hnd.ServeHTTP(rec, httptest.NewRequest("GET", path, nil))
+			return rec.Header().Get("X-Cache")
+		}
+		ctx := fmt.Sprintf("re-cache during Invalidate, round %d", rep)
+		watch(ctx)
+		get()
+		invG.Store(gid())
+		inInv.Store(true)
+		mw.Invalidate(path)
+		inInv.Store(false)
+		if !fired.Load() {
+			get()
+		}
+		settle(mw)
+		quiescentCheck(mw, ctx)
+		if get() == "HIT" {
+			if n := mw.Invalidate(path); n != 1 {
+				m.violate("C15", fmt.Sprintf("%s: GET %s, Invalidate(%s) with a request re-caching the key %s, then a HIT: a second Invalidate(%s) removed %d entries instead of 1 (the cached response is no longer reachable through the index)", ctx, path, path, map[bool]string{true: "while it ran", false: "right after it"}[fired.Load()], path, n), ctx)
+			} else if get() == "HIT" {
+				m.violate("C15", fmt.Sprintf("%s: still a HIT after the second Invalidate(%s) returned 1", ctx, path), ctx)
+			}
+		}
+		unwatch()
+		mw.Close()
 	}
 	// regression for finding F5 (fixed): the schedule index r1, index r2, Set r2, r2 evicted and notified, Set r1, driven
 	// through the real store with the cooperative scheduler (a store parks at the yield point inside its cache write).
